@@ -117,6 +117,25 @@ def phi(alts):
     return T("phi", tuple(sorted(uniq, key=repr)))
 
 
+def arms(t):
+    """Alternatives of a join (``phi``) or of a conditional value (``ifexp``), else None."""
+    if isinstance(t, T) and t.op == "phi":
+        return list(t.a[0])
+    if isinstance(t, T) and t.op == "ifexp":
+        return [t.a[1], t.a[2]]
+    return None
+
+
+def map_arms(t, f):
+    """Apply ``f`` to every alternative of a join / conditional value, keeping its shape."""
+    if isinstance(t, T) and t.op == "phi":
+        return phi([f(x) for x in t.a[0]])
+    if isinstance(t, T) and t.op == "ifexp":
+        a, b = f(t.a[1]), f(t.a[2])
+        return a if a == b else T("ifexp", t.a[0], a, b)
+    return f(t)
+
+
 def is_call(t, callee=None):
     return isinstance(t, T) and t.op == "call" and (callee is None or t.a[0] == callee)
 
@@ -251,6 +270,10 @@ class State:
 
 
 UNBOUND = T("unbound")
+
+
+def _has_unbound(t):
+    return isinstance(t, T) and t.op == "phi" and UNBOUND in t.a[0]
 
 
 def join_states(states, pc):
@@ -416,6 +439,8 @@ class Interp:
             return self.if_(s, st, fr)
         if isinstance(s, (ast.For, ast.AsyncFor)):
             return self.for_(s, st, fr)
+        if isinstance(s, ast.While):
+            return self.while_(s, st, fr)
         if isinstance(s, (ast.FunctionDef, ast.AsyncFunctionDef)):
             cid = len(self.closures)
             cenv = dict(fr.parent_env or {})
@@ -466,15 +491,51 @@ class Interp:
             if st is not None and s.finalbody:
                 st = self.block(s.finalbody, st, fr)
             return st
-        if isinstance(s, ast.While):
-            self.ev(s.test, st, fr)
-            return st
         return st
+
+    def while_(self, s, st, fr):
+        """``while test: body`` -- like a for loop over an unknown number of iterations: names assigned in the body are
+        loop-carried, the body is interpreted once under the test, the state after the loop joins zero and more iterations."""
+        self._lid += 1
+        lid = self._lid
+        lp = Loop(lid, s, T("while", lid), fr)
+        lp.kind = "while"
+        lp.entry_pc = st.pc
+        self.loops[lid] = lp
+        pre = st
+        body = st.copy()
+        body.ctxs = st.ctxs + (lid,)
+        body.cnt = {}
+        assigned, heap_assigned = _assigned_names(s.body)
+        for nm in assigned:
+            if nm in body.env and body.env[nm] != UNBOUND:
+                body.env[nm] = T("carried", nm, body.env[nm], lid)
+        for nm in heap_assigned:
+            if nm in body.heap:
+                body.heap[nm] = T("carried", "self." + nm, body.heap[nm], lid)
+        t = self.ev(s.test, body, fr)
+        if not (is_const(t) and cval(t)):
+            body.pc = body.pc + ((t, True),)
+        end = self.block(s.body, body, fr)
+        if end is not None:
+            lp.ends.append(end)
+        out = pre.copy()
+        ends = join_states(lp.ends + lp.breaks, pre.pc)
+        if ends is not None:
+            for nm in assigned:
+                if nm in ends.env:
+                    out.env[nm] = T("loopout", nm, pre.env.get(nm, UNBOUND), ends.env[nm], lid)
+            for nm in heap_assigned:
+                if nm in ends.heap:
+                    out.heap[nm] = T("loopout", "self." + nm, pre.heap.get(nm, UNBOUND), ends.heap[nm], lid)
+        if s.orelse:
+            out = self.block(s.orelse, out, fr)
+        return out
 
     def _cur_loop(self, st, fr):
         for lid in reversed(st.ctxs):
             lp = self.loops.get(lid)
-            if lp is not None and lp.kind == "for" and lp.frame is fr:
+            if lp is not None and lp.kind in ("for", "while") and lp.frame is fr:
                 return lp
         return None
 
@@ -524,6 +585,20 @@ class Interp:
                 core = core.a[1] if core.op == "carried" else core.a[0]
             if isinstance(core, T) and core.op == "list":
                 st.env[expr.func.value.id] = T("appended", recv, value.a[1][0], node=expr, ctx=st.ctxs)
+        elif is_mcall(value) and value.a[0].a[1] in ("extend", "append") and isinstance(expr, ast.Call) \
+                and isinstance(expr.func, ast.Attribute) and len(value.a[1]) == 1 and not value.a[2] \
+                and (astq.is_self_attr(expr.func.value) or (isinstance(expr.func.value, ast.Name) and value.a[0].a[1] == "extend")):
+            # ``self.acc.extend(xs)`` / ``self.acc.append(x)`` / ``acc.extend(xs)`` as a statement mutates the accumulator
+            recv = value.a[0].a[0]
+            new_ = T("extended" if value.a[0].a[1] == "extend" else "appended", recv, value.a[1][0], node=expr, ctx=st.ctxs)
+            if astq.is_self_attr(expr.func.value):
+                st.heap[expr.func.value.attr] = new_
+            else:
+                core = recv
+                while isinstance(core, T) and core.op in ("carried", "appended", "extended"):
+                    core = core.a[1] if core.op == "carried" else core.a[0]
+                if isinstance(core, T) and core.op in ("list", "call"):
+                    st.env[expr.func.value.id] = new_
 
     def assign(self, target, v, st, fr, stmt):
         if isinstance(target, ast.Name):
@@ -537,9 +612,8 @@ class Interp:
                 return
             if isinstance(v, T) and v.op in ("tuple", "list") and len(v.a[0]) == n:
                 parts = list(v.a[0])
-            elif isinstance(v, T) and v.op == "phi" and all(
-                    isinstance(x, T) and x.op in ("tuple", "list") and len(x.a[0]) == n for x in v.a[0]):
-                parts = [phi([x.a[0][i] for x in v.a[0]]) for i in range(n)]
+            elif arms(v) is not None and all(isinstance(x, T) and x.op in ("tuple", "list") and len(x.a[0]) == n for x in arms(v)):
+                parts = [map_arms(v, lambda x, i=i: x.a[0][i]) for i in range(n)]
             else:
                 parts = [T("item", v, i, node=stmt, ctx=st.ctxs) for i in range(n)]
             for e, p in zip(target.elts, parts):
@@ -599,7 +673,15 @@ class Interp:
         a = self.block(s.body, a, fr)
         b = self.block(s.orelse, b, fr)
         if a is not None and b is not None:
-            return join_states([a, b], pc0)
+            j = join_states([a, b], pc0)
+            # values that differ between the two branches keep their condition (conditional value instead of an anonymous join)
+            for field in ("env", "heap"):
+                da, db, dj = getattr(a, field), getattr(b, field), getattr(j, field)
+                for k in dj:
+                    va, vb = da.get(k, UNBOUND), db.get(k, UNBOUND)
+                    if va != vb and va != UNBOUND and vb != UNBOUND and not _has_unbound(va) and not _has_unbound(vb):
+                        dj[k] = T("ifexp", t, va, vb)
+            return j
         return a if a is not None else b
 
     def for_(self, s, st, fr):
@@ -772,6 +854,10 @@ class Interp:
             c = cat_of(a, b)
             if c is not None:
                 return c
+        if isinstance(e.op, ast.Mod) and is_const(a) and isinstance(cval(a), str):
+            c = fmt_percent(cval(a), b)
+            if c is not None:
+                return c
         return T("binop", type(e.op).__name__, a, b, node=e, ctx=st.ctxs)
 
     def ev_UnaryOp(self, e, st, fr):
@@ -927,6 +1013,11 @@ class Interp:
                     ev.inlined = True
                     return self.inline(k.module, fdef, [P("self")] + args, kwargs, e, st, fr, cls=fr.cls, defcls=k,
                                        skip_self=False)
+            if name == "format" and is_const(recv) and isinstance(cval(recv), str) and not kwargs \
+                    and not any(isinstance(a, T) and a.op == "star" for a in args):
+                c = fmt_braces(cval(recv), args)
+                if c is not None and "{" in cval(recv):
+                    return c
             if name == "set_params" and not args:
                 p = kwargs.get("**") if set(kwargs) == {"**"} else T("dict", tuple((C(k), v) for k, v in sorted(kwargs.items())))
                 return T("withparams", recv, p, node=e, ctx=ctx)
@@ -1073,7 +1164,7 @@ def _assigned_names(stmts):
                     heap.append(n.value.attr)
             elif isinstance(n, ast.Attribute) and isinstance(n.ctx, ast.Store) and astq.is_self_attr(n) and n.attr not in heap:
                 heap.append(n.attr)
-            elif isinstance(n, ast.Call) and isinstance(n.func, ast.Attribute) and n.func.attr in ("set_params", "append") \
+            elif isinstance(n, ast.Call) and isinstance(n.func, ast.Attribute) and n.func.attr in ("set_params", "append", "extend") \
                     and isinstance(n.func.value, ast.Name) and n.func.value.id not in names:
                 names.append(n.func.value.id)
             elif isinstance(n, (ast.FunctionDef, ast.AsyncFunctionDef)) and n.name not in names:
@@ -1111,6 +1202,44 @@ def make_cat(parts):
     if not out:
         return C("")
     return T("cat", tuple(out))
+
+
+def fmt_percent(template, arg):
+    """``"mean_%s" % x`` / ``"%s__%s" % (a, b)`` with plain ``%s`` placeholders only -> concatenation normal form."""
+    pieces = template.split("%s")
+    if "%" in "".join(pieces):
+        return None
+    args = list(arg.a[0]) if isinstance(arg, T) and arg.op == "tuple" else [arg]
+    if len(args) != len(pieces) - 1:
+        return None
+    parts = []
+    for i, pc_ in enumerate(pieces):
+        parts.append(C(pc_))
+        if i < len(args):
+            parts.append(args[i])
+    return make_cat(parts)
+
+
+def fmt_braces(template, args):
+    """``"mean_{}".format(x)`` / ``"{0}_{1}".format(a, b)`` with plain positional placeholders only."""
+    import re as _re
+    parts, pos, auto = [], 0, 0
+    for m in _re.finditer(r"\{(\d*)\}", template):
+        lit = template[pos:m.start()]
+        if "{" in lit or "}" in lit:
+            return None
+        parts.append(C(lit))
+        k = int(m.group(1)) if m.group(1) else auto
+        auto += 1
+        if k >= len(args):
+            return None
+        parts.append(args[k])
+        pos = m.end()
+    tail = template[pos:]
+    if "{" in tail or "}" in tail:
+        return None
+    parts.append(C(tail))
+    return make_cat(parts)
 
 
 def cat_of(a, b):
@@ -1371,8 +1500,8 @@ class Validators:
     def strip(self, t):
         """Remove identity validators (and joins of equal cores) from the outside of ``t``."""
         while True:
-            if isinstance(t, T) and t.op == "phi":
-                cores = {self.strip(x) for x in t.a[0]}
+            if arms(t) is not None:
+                cores = {self.strip(x) for x in arms(t)}
                 if len(cores) == 1:
                     t = cores.pop()
                     continue
@@ -1420,8 +1549,8 @@ class Validators:
         """Dotted names of the validators wrapped around ``t`` (outermost first)."""
         out = []
         while True:
-            if isinstance(t, T) and t.op == "phi":
-                subs = [self.applied(x) for x in t.a[0]]
+            if arms(t) is not None:
+                subs = [self.applied(x) for x in arms(t)]
                 common = [v for v in subs[0] if all(v in s for s in subs[1:])] if subs else []
                 return out + common
             c = t.a[0] if isinstance(t, T) and t.op == "item" else t
